@@ -698,6 +698,7 @@ class Resolver:
 def _inline_call(call: ast.Call, helper: ast.FunctionDef, skip: int, make_tail, value_used: bool):
     """statement list equivalent to running `helper` with the call's arguments; `make_tail(expr)` turns a returned expression into the
     statement that consumes it. None if the call shape is not supported."""
+    helper = _strip_error_translation(helper)        # handlers that only re-raise translate errors; the value is that of the try body
     a = helper.args
     star_kw = [k for k in call.keywords if k.arg is None]
     star_pos = [x for x in call.args if isinstance(x, ast.Starred)]
@@ -781,6 +782,33 @@ def _inline_call(call: ast.Call, helper: ast.FunctionDef, skip: int, make_tail, 
 _single_expr_cache: Dict[int, object] = {}
 
 
+def _strip_error_translation(helper):
+    """the VALUE of a helper whose body is `try: <body> except E: raise ...` (every handler only raises, no else / finally) is the value of <body>: the
+    handlers translate an exception into another one and never produce a value.  Locals that only the handlers read (a prepared message) are dropped."""
+    h = clone(helper)
+    changed = False
+    new_body = []
+    for st in h.body:
+        if isinstance(st, ast.Try) and not st.orelse and not st.finalbody and st.handlers and \
+                all(hd.body and all(isinstance(x, (ast.Raise, ast.Pass)) for x in hd.body) and any(isinstance(x, ast.Raise) for x in hd.body) for hd in st.handlers):
+            new_body.extend(st.body)
+            changed = True
+        else:
+            new_body.append(st)
+    if not changed:
+        return helper
+    h.body = new_body
+    # drop call-free bindings of names that are no longer read
+    while True:
+        read = {n.id for n in ast.walk(h) if isinstance(n, ast.Name) and isinstance(n.ctx, ast.Load)}
+        keep = [st for st in h.body if not (isinstance(st, ast.Assign) and len(st.targets) == 1 and isinstance(st.targets[0], ast.Name)
+                                            and st.targets[0].id not in read and not any(isinstance(c, ast.Call) for c in ast.walk(st.value)))]
+        if len(keep) == len(h.body):
+            break
+        h.body = keep
+    return ast.fix_missing_locations(h)
+
+
 def _single_expr(helper: ast.FunctionDef):
     """the helper as one expression of its parameters, if its normal form is a single `return <expr>`"""
     k = id(helper)
@@ -788,7 +816,7 @@ def _single_expr(helper: ast.FunctionDef):
         r = None
         a = helper.args
         if not (a.vararg or a.kwarg or a.posonlyargs or a.kwonlyargs):
-            h = substituted(structural(helper))
+            h = substituted(structural(_strip_error_translation(helper)))
             body = [x for x in h.body if not (isinstance(x, ast.Expr) and isinstance(x.value, ast.Constant) and isinstance(x.value.value, str))]
             if len(body) == 1 and isinstance(body[0], ast.Return) and body[0].value is not None:
                 r = body[0].value
